@@ -58,8 +58,36 @@ def make_file(rng):
     f.append(ins('LATT', rng.choice([-1, 1, -2, 2, -7])))
     for s in rng.sample([['-X,', 'Y+1/2,', '-Z'], ['-X,', '-Y,', 'Z'], ['X+1/2,', '-Y,', 'Z+1/2']], rng.randint(0, 2)):
         f.append(ins('SYMM', *s))
-    f.append(dict(kind='sfac', toks=[('SFAC', 'kw')] + [(e, 'el') for e in els]))
+    # every SFAC form: one short line, several short lines, short + explicit (E a1 b1 ... wt), all explicit
+    form = rng.choice(['short', 'short', 'short2', 'mixed', 'mixed', 'mixed', 'explicit'])
+
+    def explicit(e):
+        return dict(kind='sfac', form='explicit', toks=[('SFAC', 'kw'), (e, 'el')] + [(num(rng, -1, 60, 4), None) for _ in range(9)] +
+                    [(num(rng, -1, 3, 4), None), (num(rng, 0, 9, 4), None), (num(rng, 1, 900, 2), None), (num(rng, 0.3, 2.5, 2), None),
+                     (num(rng, 1, 240, 3), None)])
+
+    def short(es):
+        return dict(kind='sfac', form='short', toks=[('SFAC', 'kw')] + [(e, 'el') for e in es])
+
+    if form == 'short':
+        f.append(short(els))
+    elif form == 'short2' and len(els) > 2:
+        k = rng.randint(1, len(els) - 1)
+        f += [short(els[:k]), short(els[k:])]
+    elif form == 'explicit':
+        f += [explicit(e) for e in els]
+    else:
+        k = rng.randint(1, len(els) - 1)
+        if rng.random() < 0.5:
+            f += [short(els[:k])] + [explicit(e) for e in els[k:]]
+        else:                      # explicit entries first, or between two short lines
+            f += [explicit(e) for e in els[:k]] + [short(els[k:])]
+    for e in rng.sample(els, rng.randint(0, min(2, len(els)))):
+        # DISP E f' f" [mu]   (has to follow SFAC directly)
+        f.append(dict(kind='disp', toks=[('DISP', 'kw'), (rng.choice(['', '$']) + e, 'el'), (num(rng, -1, 1, 4), None), (num(rng, 0, 5, 4), None)] +
+                      ([(num(rng, 10, 9000, 1), None)] if rng.random() < 0.5 else [])))
     f.append(ins('UNIT', *[rng.choice([2, 4, 8, 16, 24, 36]) for _ in els]))
+    f[0]['elements'] = list(els)
     # atoms first (names), text later
     used = set()
     classes = rng.sample(['CCF', 'TOL', 'THF', 'BENZ', 'PF6'], rng.randint(1, 2))
@@ -153,7 +181,8 @@ def make_file(rng):
             i += 1
     for cls, n, names in resis:
         order = rng.random() < 0.5
-        f.append(dict(kind='resi', toks=[('RESI', 'kw')] + ([(cls, 'cls'), (str(n), None)] if order else [(str(n), None), (cls, 'cls')])))
+        f.append(dict(kind='resi', toks=[('RESI', 'kw')] + ([(cls, 'cls'), (str(n), None)] if order else [(str(n), None), (cls, 'cls')]) +
+                      ([(str(100 + n), None)] if rng.random() < 0.3 else [])))
         for name, s in names:
             f.append(atom(name, s))
     f.append(ins('RESI', 0))
@@ -202,6 +231,8 @@ def render(layout, extras=None):
 def swapcase_some(rng, s, mode):
     if mode == 'lower':
         return s.lower()
+    if mode == 'upper':
+        return s.upper()
     if mode == 'title':
         return s.capitalize()
     return ''.join(c.lower() if rng.random() < 0.5 else c.upper() for c in s)
@@ -260,7 +291,7 @@ def transform(rng, f, kind, where=None):
                                     else ['  x = y', ' ! a = b', '   ends with ='])]
     elif kind.startswith('case-'):
         role = dict(kw='kw', elem='el', atom='an', ratom='an', resi='cls', suffix='kw', **{'rem=': 'kw'})[kind[5:]]
-        mode = rng.choice(['lower', 'title', 'mixed'])
+        mode = rng.choice(['lower', 'title', 'mixed', 'upper'])
         hit = 0
         for i in range(n):
             k = f[i]['kind']
@@ -289,6 +320,31 @@ def transform(rng, f, kind, where=None):
             k = rng.choice([x for x in range(1, n) if f[x]['kind'] not in ('atom',)])
             extras[k] = ['rem note ends with =']
             hit += 1
+        if not hit:
+            return None
+        detail = dict(mode=mode)
+    elif kind == 'sfac-forms':
+        # everything at once on the lines that define element identity: SFAC in each of its forms (the explicit one
+        # wrapped the way SHELXL writes it) and DISP: element case, keyword case, wraps, blanks, comments
+        mode = rng.choice(['lower', 'mixed', 'upper', 'upper'])
+        hit = 0
+        for i in range(n):
+            if f[i]['kind'] not in ('sfac', 'disp'):
+                continue
+            b = bounds(i)
+            for j, (t, r) in enumerate(f[i]['toks']):
+                if r == 'el':
+                    ly[i]['toks'][j] = swapcase_some(rng, t, mode)
+                    hit += ly[i]['toks'][j] != t
+            if rng.random() < 0.5:
+                ly[i]['toks'][0] = swapcase_some(rng, ly[i]['toks'][0], 'mixed')
+            if b and (len(b) > 6 or rng.random() < 0.3):
+                ly[i]['wraps'] = {j: (False, rng.randint(1, 6)) for j in rng.sample(b, rng.randint(1, min(2, len(b))))}
+                hit += 1
+            if rng.random() < 0.4:
+                ly[i]['sep'] = {j: rng.randint(1, 3) for j in b}
+            if rng.random() < 0.3:
+                ly[i]['comment'] = {0: rng.choice(COMMENTS)}
         if not hit:
             return None
         detail = dict(mode=mode)
@@ -333,7 +389,11 @@ def fl(x):
         return repr(x)
 
 
-def observe(lines):
+def casings(e):
+    return sorted({e.upper(), e.lower(), e.capitalize()})
+
+
+def observe(lines, elements=None):
     from shelxfile import Shelxfile
     from shelxfile.atoms.atom import Atom
     shx = Shelxfile()
@@ -368,8 +428,10 @@ def observe(lines):
     for i, (raw, item) in enumerate(zip(lines, shx._reslist)):
         if raw.startswith(' ') or raw == '':
             continue
-        if isinstance(item, str) and item == '':
+        if isinstance(item, str) and item == '' and raw[:4].upper() not in ('SFAC', 'FVAR', 'SYMM'):
             continue                       # consumed by the continuation loop
+        # (second and later SFAC/FVAR/SYMM lines are merged into the object of the first and blanked as well; whether
+        #  one of THOSE was swallowed shows in the sfac / fvars / symm fields)
         starts.append(i)
         if isinstance(item, (str, Atom)):
             objs.append(None)
@@ -398,7 +460,40 @@ def observe(lines):
     except Exception as e:
         o['cell'] = type(e).__name__
     o['sfac'] = [str(e).upper() for e in shx.sfac_table.elements_list]
-    o['elem_lookup'] = [[e, shx.elem2sfac(e), bool(shx.sfac_table.has_element(e))] for e in sorted(set(o['sfac']))]
+    # everything that depends on element identity, asked in every letter case (the question's case is the caller's
+    # business, the answer must not depend on how the FILE spelled the element)
+    els = list(elements) if elements else sorted(set(o['sfac']))
+    look = []
+    for e in els:
+        for q in casings(e):
+            try:
+                look.append([q, shx.elem2sfac(q), bool(shx.sfac_table.has_element(q))])
+            except Exception as ex:
+                look.append([q, type(ex).__name__])
+    o['elem_lookup'] = look
+    try:
+        o['sfac_iter'] = [str(x).upper() for x in shx.sfac_table]
+        o['sfac_byindex'] = [str(shx.sfac2elem(k + 1)).upper() for k in range(len(o['sfac']))]
+        o['sfac_coeff'] = [[k.upper() if isinstance(k, str) else k, fl(v)] for d in shx.sfac_table.sfac_table
+                           for k, v in sorted(d.items()) if k not in ('element', 'line_number')]
+    except Exception as ex:
+        o['sfac_iter'] = type(ex).__name__
+    try:
+        o['sum_exact'] = sorted([str(k).upper(), fl(v)] for k, v in shx.sum_formula_exact_as_dict().items())
+    except Exception as ex:
+        o['sum_exact'] = type(ex).__name__
+    try:
+        o['sum_formula'] = str(shx.sum_formula).upper()
+        o['sum_formula_exact'] = str(shx.sum_formula_exact).upper()
+    except Exception as ex:
+        o['sum_formula'] = type(ex).__name__
+    o['disp'] = [[[str(t).upper() if isinstance(t, str) else fl(t) for t in lst] for lst in (d.element, d.parameter)] for d in shx.disp]
+    o['atom_an'] = []
+    for a in shx.atoms:
+        try:
+            o['atom_an'].append(a.an)
+        except Exception as ex:
+            o['atom_an'].append(type(ex).__name__)
     o['unit'] = [fl(x) for x in shx.unit.values] if getattr(shx, 'unit', None) else None
     o['fvars'] = [fl(x) for x in shx.fvars.as_stringlist] if hasattr(shx.fvars, 'as_stringlist') else [fl(v.fvar_value) for v in shx.fvars.fvars]
     o['symm'] = len(shx.symmcards._symmcards) if hasattr(shx.symmcards, '_symmcards') else None
@@ -420,7 +515,8 @@ def same(a, b):
     return a == b
 
 
-FIELDS = ['atoms', 'restraints', 'restraint_errors_empty', 'n_rem', 'titl_raw', 'scalars', 'cell', 'sfac', 'elem_lookup', 'unit', 'fvars', 'symm', 'counts']
+FIELDS = ['atoms', 'restraints', 'restraint_errors_empty', 'n_rem', 'titl_raw', 'scalars', 'cell', 'sfac', 'elem_lookup', 'sfac_iter', 'sfac_byindex', 'sfac_coeff', 'sum_exact',
+          'sum_formula', 'sum_formula_exact', 'disp', 'atom_an', 'unit', 'fvars', 'symm', 'counts']
 
 
 def upper_objs(o):
@@ -454,13 +550,13 @@ def evaluate(ctx, cases, stream=None):
     for ci, c in enumerate(cases):
         kind = c['kind']
         ra, rb = ans[2 * ci], ans[2 * ci + 1]
-        oa, ob = observe(c['a']), observe(c['b'])
+        oa, ob = observe(c['a'], c.get('elements')), observe(c['b'], c.get('elements'))
         key = [kind, c['a'], c['b']]
         tags = ['kind=' + kind] + (['instr=' + c['detail']['instr'][:4].upper()] if c.get('detail', {}).get('instr') else [])
         ctx.count(key, nontrivial=c['a'] != c['b'], tags=tags,
                   sample=dict(kind=kind, detail=c.get('detail'), b=[x for x, y in zip(c['b'], c['a'] + [''] * len(c['b'])) if x != y][:3]))
         # the generator must stay inside the domain of the theorems: both layouts valid, same normal form
-        ci = kind.startswith('case-') and kind not in ('case-kw', 'case-rem=') or kind == 'mixed'
+        ci = kind.startswith('case-') and kind not in ('case-kw', 'case-rem=') or kind in ('mixed', 'sfac-forms')
         up = (lambda n: [[t.upper() for t in l] for l in n]) if ci else (lambda n: n)
         if ra['spec'] is None or rb['spec'] is None or up(ra['spec']) != up(rb['spec']):
             if c.get('expect_spec_equal', True):
@@ -477,6 +573,27 @@ def evaluate(ctx, cases, stream=None):
                     f'({json.dumps(va, default=str)[:160]} vs {json.dumps(vb, default=str)[:160]})')
             ctx.fail(sig, what, dict(case=c, stream='pair', expected=oa.get(d), actual=ob.get(d),
                                      model=dict(norm_a=ra['spec'], norm_b=rb['spec'])), kind='property')
+        # --- element identity against the construction (spec side: the generator knows which elements the file defines)
+        if c.get('elements'):
+            els = [e.upper() for e in c['elements']]
+            for side, o in (('a', oa), ('b', ob)):
+                if 'error' in o:
+                    continue
+                want = [[q, els.index(e.upper()) + 1, True] for e in c['elements'] for q in casings(e)]
+                bad = None
+                if o['sfac'] != els:
+                    bad = ('sfac', els, o['sfac'])
+                elif o['elem_lookup'] != want:
+                    k = next(i for i, (x, y) in enumerate(zip(o['elem_lookup'], want)) if x != y)
+                    bad = ('elem_lookup', want[k], o['elem_lookup'][k])
+                elif isinstance(o['sum_exact'], list) and sorted(k for k, _ in o['sum_exact']) != sorted(els):
+                    bad = ('sum_exact', sorted(els), o['sum_exact'])
+                elif o.get('sfac_byindex') != els:
+                    bad = ('sfac_byindex', els, o.get('sfac_byindex'))
+                if bad:
+                    ctx.fail(f'C05|{kind}|element-identity|{bad[0]}', f'text {side} defines the elements {els} (kind {kind}): {bad[0]} gives {bad[2]!r:.200}, '
+                             f'expected {bad[1]!r:.200}', dict(case=c, stream='pair', side=side, expected=bad[1], actual=bad[2]), kind='property')
+                    break
         # --- lines: implementation's logical lines vs model and spec, on both texts
         for side, o, r in (('a', oa, ra), ('b', ob, rb)):
             if 'error' in o:
@@ -532,7 +649,7 @@ def class_lookup_impl(q):
     return sorted(shx.restraints[0].residue_number)
 
 
-KINDS = ['wrap1', 'wrap-tight', 'wrapk', 'blanks', 'blanks-titl', 'comment', 'comment=', 'comment-on-wrap', 'comment=-on-wrap',
+KINDS = ['sfac-forms', 'wrap1', 'wrap-tight', 'wrapk', 'blanks', 'blanks-titl', 'comment', 'comment=', 'comment-on-wrap', 'comment=-on-wrap',
          'blankline', 'commentline', 'commentline=', 'case-kw', 'case-rem=', 'case-elem', 'case-atom', 'case-ratom', 'case-resi',
          'case-suffix', 'mixed']
 
@@ -545,7 +662,7 @@ def make_case(rng, f, kind, where=None):
     a_extras = {}
     if kind == 'case-rem=':
         a_extras = {k: [x.replace('rem', 'REM', 1) for x in v] for k, v in extras.items()}
-    c = dict(kind=kind, detail=detail, a=render(canon(f), a_extras), b=render(ly, extras))
+    c = dict(kind=kind, detail=detail, a=render(canon(f), a_extras), b=render(ly, extras), elements=f[0].get('elements'))
     return c
 
 
